@@ -66,6 +66,7 @@ func checkC09(c *Ctx, r *Result, tier string) {
 
 	// R09c
 	checkLockOrder(c, r, lfs, "R09c", engineLockClass)
+	r.Extra["reentrance_call_sites"] = checkReentrance(c, r, lfs, "R09c-reentry", func(class string) bool { return len(class) >= 5 && class[:5] == "pool." })
 }
 
 // c09WorkerLoop: the function of package pool which invokes Task.Run.
